@@ -171,7 +171,7 @@ def run(ctx):
         env["VERIF_REPLAY"] = os.path.abspath(ctx.replay)
     else:
         env["VERIF_CORPUS"] = os.path.join(os.path.dirname(os.path.dirname(os.path.abspath(__file__))), "harness", "corpus", "C16")
-        env["VERIF_HISTORIES"] = 1500 if ctx.thorough else 160
+        env["VERIF_HISTORIES"] = 1500 if ctx.thorough else 130
         env["VERIF_OPS"] = 60 if ctx.thorough else 40
         env["VERIF_SLEEP_HISTORIES"] = 12 if ctx.thorough else 2
     rc, log, out = ctx.run_harness(binary, "TestVerifC16", env, timeout=3000)
@@ -389,7 +389,9 @@ def run(ctx):
                         explained = False
                 sig = "C16:replica-keeps-entry-superseded-by-shorter-lived-one" if explained else "C16:replica-holds-unlisted-entry"
                 report(sig, f"after quiescent polls the client still holds live entries the server does not list {sorted(stale)}", i)
-            if op.get("quiet", 0) >= 3 and prev and (C != prev["C"]):
+            def keep(c):   # expired rows may be pruned by any add (also one for another list): not part of idempotence
+                return (c["seed"], c["ts"], [r for r in c["rows"] if r["exp"] > rel + 2])
+            if op.get("quiet", 0) >= 3 and prev and keep(C) != keep(prev["C"]):
                 report("C16:quiescent-poll-not-idempotent", "a third quiescent poll changed the replica", i)
         prev = st
     n_or = sum(oracle_fail.values())
